@@ -850,6 +850,15 @@ func (env *SpecEnv) quant(e *Expr) (SpecVal, error) {
 	var binders []string
 	var ranges []Term
 	for _, qv := range e.Vars {
+		var bvw int
+		if n, _ := fmt.Sscanf(qv.Type, "bv%d", &bvw); n == 1 && bvw > 0 && qv.Type == fmt.Sprintf("bv%d", bvw) {
+			// a bit-vector value (not a Go type)
+			name := "q!" + sanitize(qv.Name) + fmt.Sprintf("!%d", vc.ordinal("qv"))
+			t := Term{name, SBV(bvw)}
+			binders = append(binders, fmt.Sprintf("(%s %s)", name, SBV(bvw)))
+			sub.vars[qv.Name] = SpecVal{T: t}
+			continue
+		}
 		ty, err := env.resolveTypeName(qv.Type)
 		if err != nil {
 			return SpecVal{}, err
@@ -1150,6 +1159,27 @@ func (env *SpecEnv) call(e *Expr) (SpecVal, error) {
 			return SpecVal{}, fmt.Errorf("received(): not a channel")
 		}
 		return SpecVal{T: Select(vc.recvCounts(env.cur, cht.Elem()), Rid(as[0].T))}, nil
+	case "cbapp":
+		// cbapp(f, x, y, ...): the value a pure callback f returns for these argument values
+		// (pointer arguments are given dereferenced)
+		as, err := evalArgs()
+		if err != nil || len(as) < 1 || as[0].T.Sort != SFunc {
+			return SpecVal{}, fmt.Errorf("cbapp(f, args...): %v", err)
+		}
+		sig, ok := U(as[0].Ty).(*types.Signature)
+		if !ok || sig.Results().Len() != 1 {
+			return SpecVal{}, fmt.Errorf("cbapp: %s is not a function with one result", args[0])
+		}
+		rty := sig.Results().At(0).Type()
+		rs, err := vc.tt.SortOf(rty)
+		if err != nil {
+			return SpecVal{}, err
+		}
+		all := make([]Term, len(as))
+		for i, a := range as {
+			all[i] = a.T
+		}
+		return SpecVal{T: vc.cbApp(all, rs), Ty: rty}, nil
 	case "setin", "setadd":
 		// ghost sets (ghost var s set[T]): membership and insertion
 		as, err := evalArgs()
